@@ -300,8 +300,9 @@ PROPS['C07'] = dict(ROUTER_COMMON, **{
     'modules': ['IpcModel.Props.C07'],
     'theorems': ['C07.C07_dispatch', 'C07.C07_dispatch_partial_msg', 'C07.C07_dispatch_partial_closed', 'C07.C07_keys', 'C07.C07_fresh', 'Router.step_fresh',
                  'Router.dispatch_run', 'Router.run_gone', 'C07.C07_shape', 'C07.C07_code_variant'],
-    'scenarios': router_scen(800, 8000, 160, 3000),
-    'rule': PROPS['C17']['rule'],
+    'scenarios': (lambda a: (lambda tier, seed: a(tier, seed) + [{'build': 'force-inprocess', 'args': ['router', '--mode', 'seq', '--seed', str(seed + 50), '--n', str(2000 if tier == 'thorough' else 150)]}]))(router_scen(800, 8000, 160, 3000)),
+    'builds': ['default', 'force-inprocess'],
+    'rule': PROPS['C17']['rule'] + '; the sequential router scripts also run on the in-process transport (its receiver set is different code)',
     'explanation': ('one-step dispatch theorems (message -> exactly the registered handler, once; closure -> exactly that handler dropped; fresh ids) plus the freshness '
                     'invariant over all runs; per-route logs of the real router compared with the model; per-route order and single drop checked under concurrency'),
     'level_text': ('Kernel-checked for every event stream that does not stop the router: the effects concerning a route are exactly one invocation per message reported for its '
@@ -416,7 +417,9 @@ PROPS['C06'] = {
     'theorems': ['C06.C06_no_lost_wakeup', 'C06.C06_init', 'C06.C06_select_enabled', 'C06.C06_once_ordered', 'C06.C06_inv2_init', 'C06.C06_inv2_fresh',
                  'C06.C06_inv2_step', 'C06.C06_cap_pos', 'RSetP.inv_step', 'RSetP.acct_step', 'RSetP.acct_run', 'C06.C06_shape'],
     'scenarios': (lambda a: (lambda tier, seed: a(tier, seed) + [{'args': ['crash', '--shape', str(i), '--tier', tier, '--observer', 'select']}
-                                                       for i in ((1, 2, 4, 5) if tier == 'thorough' else (1, 2))]))(set_scen(800, 12000)),
+                                                       for i in ((1, 2, 4, 5) if tier == 'thorough' else (1, 2))]
+                                                      + [{'build': 'force-inprocess', 'args': ['set', '--seed', str(seed + 40), '--n', str(2000 if tier == 'thorough' else 150), '--tier', tier]}]))(set_scen(800, 12000)),
+    'builds': ['default', 'force-inprocess'],
     'search': search_set,
     'rule': ('seeded scripts of 6..35 operations {create channel, add to set, send small / multi-packet, drop sender, select (issued only when something is pending), '
              'EINTR injected into every 4th wait} over up to 6 members (every 5th case up to 30, so that more than 10 are ready at once), then selects until nothing is '
@@ -507,9 +510,11 @@ PROPS['C03'] = {
                  'Reach.reachG_iff'],
     'builds': ['default', 'force-inprocess'],
     'scenarios': plus(world_scen(['default', 'force-inprocess'], 400, 8000),
-                      lambda tier, seed: [{'args': ['crash', '--shape', str(i), '--tier', tier, '--only-stale', '1']} for i in ((1, 2, 4, 5) if tier == 'thorough' else (1, 2))]),
+                      lambda tier, seed: [{'args': ['crash', '--shape', str(i), '--tier', tier, '--only-stale', '1']} for i in ((1, 2, 4, 5) if tier == 'thorough' else (1, 2))],
+                      lambda tier, seed: [{'build': b, 'args': ['timed', '--seed', str(seed + 2), '--n', str(1500 if tier == 'thorough' else 60), '--tier', tier]} for b in ('default', 'force-inprocess')]),
     'search': search_world,
-    'rule': ('crash --only-stale: a channel whose last sender handle travelled inside a multi-packet message whose sending process was killed before call k (every k) must report '
+    'rule': ('timed scripts on the OS and in-process transports (the last sender dropped by a second thread while recv / try_recv_timeout is blocked: it must wake up with disconnected); '
+             'crash --only-stale: a channel whose last sender handle travelled inside a multi-packet message whose sending process was killed before call k (every k) must report '
              'disconnection to a blocking recv() within 4 s once the truncated message is discarded, while the owner of the carrying channel is blocked in recv(); '
              'seeded histories of clone / embed-in-message / extract / drop-handle / drop-carrying-receiver over an acyclic family of up to 6 channels (handles are embedded only '
              'in lower-numbered channels), each receive issued as recv, try_recv or try_recv_timeout, followed by a final sweep of try_recv on every held receiver; results '
@@ -529,7 +534,8 @@ PROPS['C03'] = {
 PROPS['C09'] = {
     'modules': ['IpcModel.Props.C09'],
     'theorems': ['C09.C09_no_hang', 'C09.C09_inv_step', 'C09.C09_error', 'C09.C09_transit', 'C09.C09_code_variant', 'C09.C09_no_hang_code'],
-    'scenarios': plus(world_scen(['default'], 300, 6000), lambda tier, seed: [{'args': ['vanish', '--tier', tier], 'timeout': 600}],
+    'builds': ['default', 'force-inprocess'],
+    'scenarios': plus(world_scen(['default', 'force-inprocess'], 300, 6000), lambda tier, seed: [{'args': ['vanish', '--tier', tier], 'timeout': 600}],
                       lambda tier, seed: [{'args': ['crash', '--shape', str(i), '--tier', tier, '--only-stale', '1']} for i in ((1, 2, 4, 5, 6) if tier == 'thorough' else (1, 2))]),
     'search': search_world,
     'rule': ('crash --only-stale: a receiver that travelled only inside a multi-packet message whose sending process was killed before call k (every k) exists nowhere once the '
@@ -552,9 +558,13 @@ PROPS['C19'] = {
     'builds': ['default', 'memfd', 'force-inprocess'],
     'scenarios': (lambda a: (lambda tier, seed: a(tier, seed) + [{'build': b, 'args': ['set', '--seed', str(seed + k), '--n', str((3000 if tier == 'thorough' else 200) // 2), '--tier', tier]}
                                                        for b in ('default', 'memfd') for k in range(2)]
-                                                       + bytes_scen(['default', 'memfd', 'force-inprocess'], 120, 2000)(tier, seed)))(world_scen(['default', 'memfd', 'force-inprocess'], 300, 6000)),
+                                                       + bytes_scen(['default', 'memfd', 'force-inprocess'], 120, 2000)(tier, seed)
+                                                       + [{'build': 'force-inprocess', 'args': ['set', '--seed', str(seed + 41), '--n', str(2000 if tier == 'thorough' else 150), '--tier', tier]},
+                                                          {'build': 'force-inprocess', 'args': ['router', '--mode', 'seq', '--seed', str(seed + 51), '--n', str(1500 if tier == 'thorough' else 100)]},
+                                                          {'build': 'force-inprocess', 'args': ['oneshotip', '--seed', str(seed + 3), '--n', str(600 if tier == 'thorough' else 60), '--tier', tier]}]))(world_scen(['default', 'memfd', 'force-inprocess'], 300, 6000)),
     'search': search_world,
-    'rule': ('bytesapi: the byte-channel API (raw payloads of 0 .. 2 packets+5 bytes, recv / try_recv, clones, disconnection, byte-channel endpoints embedded in typed '
+    'rule': ('receiver-set scripts and sequential router scripts also on the in-process transport (per-member / per-route sequences compared with the same models; how many events one '
+             'select call batches is free there); bytesapi: the byte-channel API (raw payloads of 0 .. 2 packets+5 bytes, recv / try_recv, clones, disconnection, byte-channel endpoints embedded in typed '
              'messages with a backlog) as seeded programs on the three builds, compared with both models; receiver-set scripts (incl. bursts of more than 10 ready members and long per-member backlogs) on the OS and memfd builds compared with the set model; '
              'the same seeded single-threaded program (same seed => same operation choices as long as results agree) of ~40 operations over up to 6 channels is executed on the '
              'OS transport, the memfd build and the in-process transport; each result sequence is compared with Ideal.run (hence pairwise) and, on the OS and memfd builds, with the '
@@ -811,7 +821,8 @@ PROPS['C08'] = {
     'modules': ['IpcModel.Props.C08'],
     'theorems': ['C08.C08_first', 'C08.C08_orders', 'C08.C08_clean_accept', 'C08.C08_clean_drop', 'C08.C08_clean_failed_new', 'C08.C08_distinct', 'C08.C08_shape',
                  'OneShot.conn_step', 'OneShot.names_step'],
-    'scenarios': oneshot_scen(600, 12000),
+    'scenarios': plus(oneshot_scen(600, 12000), lambda tier, seed: [{'build': b, 'args': ['oneshotip', '--seed', str(seed), '--n', str(600 if tier == 'thorough' else 60), '--tier', tier]} for b in ('default', 'force-inprocess')]),
+    'builds': ['default', 'force-inprocess'],
     'search': search_oneshot,
     'rule': ('seeded lifecycles of 4..16 operations over up to 3 servers under a private temp root: new (also failing at each step: TMPDIR too long for sun_path, forced '
              'socket/bind/listen failure), connect to live and to retired names, a spawned client process that connects, sends 1..3 messages and exits before accept, client '
